@@ -388,13 +388,18 @@ def run(ctx):
         # a switch case declares a variable `x`; the computed field of another record, reached from that case, uses *its own* field `x`
         ("leak", None, lambda v: v["sl"][0] * 2), ("leakd", "sl.twice", lambda v: v["sl"][0] * 2),
         # the same within one record: the case variable `x` and the record's own field `x`, used by a computed field that the case calls
+        # operands typed by an *alias* of a narrow integer, the same operand (the same type node) on both sides of an operator
+        ("asq8", "xa * xa", lambda v: v["xa"] * v["xa"]), ("adb8", "xa + xa", lambda v: v["xa"] + v["xa"]), ("asq16", "ta * ta", lambda v: v["ta"] * v["ta"]),
+        ("asum", "lva[0] + lva[1]", lambda v: v["lva"][0] + v["lva"][1]), ("aprod", "lva[0] * lva[1]", lambda v: v["lva"][0] * v["lva"][1]),
+        ("achain", "adb8 * adb8", lambda v: (2 * v["xa"]) ** 2), ("amix", "xa * ta", lambda v: v["xa"] * v["ta"]), ("aneg", "0 - xa - xa", lambda v: -2 * v["xa"]),
         ("leaks", "ss.viaCase", lambda v: v["ss"][0] * 2), ("leaksd", "ss.twice", lambda v: v["ss"][0] * 2),
     ]
     emodel += "NPair<T>: !record\n  fields:\n    first: T\n    second: T\n  computedFields:\n    one: first\n    two: second\n"
     emodel += "NScope: !record\n  fields:\n    x: float64\n  computedFields:\n    twice: x * 2\n"
+    emodel += "NU8: uint8\nNI16: int16\n"
     emodel += "NSame: !record\n  fields:\n    x: float64\n    lu: [int32, string]\n  computedFields:\n    viaCase:\n      !switch lu:\n        int32 x: twice\n        string s: twice\n    twice: x * 2\n"
     emodel += ("Nx: !record\n  fields:\n    u8a: 'uint8[4]'\n    i8v: int8*\n    i16a: 'int16[2, 2]'\n    u16v: uint16*\n    u32v: uint32*\n    i32v: 'int32[2]'\n    f32v: float32*\n"
-               "    u8s: uint8\n    i16s: int16\n    ia: int32\n    pa: NPair<int16>\n    pb: NPair<float64>\n    lu: [int32, string]\n    sl: NScope\n    ss: NSame\n  computedFields:\n")
+               "    u8s: uint8\n    i16s: int16\n    ia: int32\n    pa: NPair<int16>\n    pb: NPair<float64>\n    lu: [int32, string]\n    sl: NScope\n    ss: NSame\n    xa: NU8\n    ta: NI16\n    lva: NU8*\n  computedFields:\n")
     # (first, so that nothing has resolved NScope.twice before)
     emodel += "    leak:\n      !switch lu:\n        int32 x: sl.twice\n        string s: sl.twice\n"
     for nme, src, _ in NX:
@@ -439,8 +444,8 @@ def run(ctx):
              Proto("PEx", [("items", S(N("Ex")))]),
              Rec("Nx", [("u8a", A(P("uint8"), ((None, 4),))), ("i8v", V(P("int8"))), ("i16a", A(P("int16"), ((None, 2), (None, 2)))), ("u16v", V(P("uint16"))), ("u32v", V(P("uint32"))),
                         ("i32v", A(P("int32"), ((None, 2),))), ("f32v", V(P("float32"))), ("u8s", P("uint8")), ("i16s", P("int16")), ("ia", P("int32")),
-                        ("pa", N("NPair", (P("int16"),))), ("pb", N("NPair", (P("float64"),))), ("lu", U(((None, P("int32")), (None, P("string"))))), ("sl", N("NScope")), ("ss", N("NSame"))]),
-             Rec("NPair", [("first", TP("T")), ("second", TP("T"))], ("T",)), Rec("NScope", [("x", P("float64"))]), Rec("NSame", [("x", P("float64")), ("lu", U(((None, P("int32")), (None, P("string")))))]),
+                        ("pa", N("NPair", (P("int16"),))), ("pb", N("NPair", (P("float64"),))), ("lu", U(((None, P("int32")), (None, P("string"))))), ("sl", N("NScope")), ("ss", N("NSame")), ("xa", N("NU8")), ("ta", N("NI16")), ("lva", V(N("NU8")))]),
+             Rec("NPair", [("first", TP("T")), ("second", TP("T"))], ("T",)), Al("NU8", P("uint8")), Al("NI16", P("int16")), Rec("NScope", [("x", P("float64"))]), Rec("NSame", [("x", P("float64")), ("lu", U(((None, P("int32")), (None, P("string")))))]),
              Proto("PNx", [("items", S(N("Nx")))])]
     hp = Pkg("Cf", defs)
     codec = Codec(hp)
@@ -559,9 +564,10 @@ def run(ctx):
         u8s, i16s, ia = r.choice([255, 200, r.randint(0, 255)]), r.choice([32767, -32768, 300, r.randint(-32768, 32767)]), r.randint(-1000, 1000)
         pa, pb = [r.randint(-300, 300), r.randint(-300, 300)], [f64(r.choice([0.5, 2.25, -7.0])), f64(r.choice([1.5, 100.0]))]
         lu, sl = ((0, r.randint(-9, 9)) if k % 2 else (1, "t")), [f64(r.choice([1.25, -0.75, 1000.5]))]
+        xa, ta, lva = r.choice([200, 255, 16, r.randint(0, 255)]), r.choice([300, -300, 32767, -32768, r.randint(-32768, 32767)]), [r.choice([255, 200, r.randint(0, 255)]) for _ in range(2)]
         ss = [f64(r.choice([1.25, -0.75, 1000.5])), ((0, r.randint(-9, 9)) if k % 3 else (1, "t"))]
-        nitems.append([((4,), u8a), i8v, ((2, 2), i16a), u16v, u32v, ((2,), i32v), f32v, u8s, i16s, ia, pa, pb, lu, sl, ss])
-        nenvs.append(dict(sl=[sl[0].value], u8a=u8a, i8v=i8v, i16a=i16a, u16v=u16v, u32v=u32v, i32v=i32v, f32v=[f32v[0].value], u8s=u8s, i16s=i16s, ia=ia, pa=pa, pb=[pb[0].value, pb[1].value], lu=lu, ss=[ss[0].value]))
+        nitems.append([((4,), u8a), i8v, ((2, 2), i16a), u16v, u32v, ((2,), i32v), f32v, u8s, i16s, ia, pa, pb, lu, sl, ss, xa, ta, lva])
+        nenvs.append(dict(sl=[sl[0].value], u8a=u8a, i8v=i8v, i16a=i16a, u16v=u16v, u32v=u32v, i32v=i32v, f32v=[f32v[0].value], u8s=u8s, i16s=i16s, ia=ia, pa=pa, pb=[pb[0].value, pb[1].value], lu=lu, ss=[ss[0].value], xa=xa, ta=ta, lva=lva))
     pr, rows_cpp, res, rows_py = run_both("PNx", nitems)
     if rows_cpp is None or rows_py is None:
         ctx.violation("driver-failed:%s" % ("cpp" if rows_cpp is None else "py"), "Nx: computed-field driver failed: %s %s" % (pr.stderr[-300:], res.get("error")), {"case_dir": root})
